@@ -1,5 +1,5 @@
 (* C12 — diff output is sorted, disjoint, well-formed and confined. *)
-From MST Require Import Base TreeM Diff Spec TreeInv TreeRanges Intervals DiffWalk Statements DiffTotal DiffTrees TreeRL DiffTop DiffMore.
+From MST Require Import Base TreeM Diff Spec TreeInv TreeRanges Intervals DiffWalk DiffTotal DiffTrees TreeRL DiffTop DiffMore.
 
 (* arbitrary well-formed page-range lists: ascending, not even sharing an end point, start <= end *)
 Theorem C12_lists :
@@ -7,10 +7,10 @@ Theorem C12_lists :
   Forall (fun r => ps digest r <= pe digest r) local ->
   Forall (fun r => ps digest r <= pe digest r) peer ->
   exists rs, diff digest deqb local peer = Ok rs /\
-    Forall (fun r => ds r <= de r) rs /\ strictly_ascending rs.
+    Forall (fun r => ds r <= de r) rs /\ strict_asc rs.
 Proof.
   intros digest deqb local peer Wl Wp.
-  destruct (DiffTotal.C13_total_proved digest deqb unit local peer Wl Wp) as (rs & E & A & B & _). eauto.
+  destruct (DiffTotal.C13_total_proved digest deqb local peer Wl Wp) as (rs & E & A & B & _). eauto.
 Qed.
 Print Assumptions C12_lists.
 
